@@ -529,9 +529,15 @@ func (c *Ctx) Bin(op Op, a, b *Term) *Term {
 		if b.IsConst() && b.k >= uint64(a.w) && op != OpAShr {
 			return c.BV(0, int(a.w))
 		}
-	case OpUDiv:
+	case OpUDiv, OpSDiv:
 		if b.IsConst() && b.k == 1 {
 			return a
+		}
+		// (zext(x) * k) / k == zext(x) when the product cannot overflow (time.Duration(x)*time.Second / 1e9)
+		if b.IsConst() && b.k != 0 && a.op == OpMul && a.b.IsConst() && a.b.k == b.k && a.a.op == OpZExt {
+			if int(a.a.a.w)+bits.Len64(b.k) <= 62 {
+				return a.a
+			}
 		}
 	}
 	return c.mk(op, a.w, 0, a, b, nil, "")
